@@ -608,14 +608,20 @@ impl Expression {
                             list.push((pas, sub_p));
                         }
                         ArrayFieldKind::Spread { value, .. } => {
-                            write!(s, "],")?;
+                            // (arrays and strings are iterated, as a spread does: holes become
+                            // `undefined` and a string gives its characters; any other value is
+                            // kept as one item instead of throwing)
+                            write!(
+                                s,
+                                r#"],((_0)=>Array.isArray(_0)||typeof _0==="string"?[..._0]:_0)("#
+                            )?;
                             let (pas, sub_p) = value.to_proc_gen_rec_and_combine_paths(
                                 w,
                                 scopes,
                                 ExpressionLevel::Cond,
                                 &mut s,
                             )?;
-                            write!(s, ",[")?;
+                            write!(s, "),[")?;
                             need_array_concat = true;
                             next_need_comma_sep = false;
                             spread_sub_pas_list.push((pas, sub_p));
